@@ -63,6 +63,7 @@ func c06Gen(seed uint64, tier string) any {
 				"xs = [1,2,3,4,5,6]; xs.shuffle(); xs", "[1,2,3,4,5,6,7,8].rand()", "[1,2,3,4,5].randSize(3)", "&cv = 3d6 + d20; cv + cv", "func ff(p) { return p + 2d10 }; ff(d4) + ff(1)",
 				"func g2() { return 4d1000 }; func f2() { return g2() + d6 }; f2()", "func g3() { return d100 }; &c3 = g3() + g3(); c3", "func h2(p) { return [1,2,3,4,5,6].rand() + p }; func f3() { return h2(d4) }; f3()",
 				"func g4() { return [1,2,3,4,5].shuffle() }; func f4() { return g4() }; f4()", "&c4 = 2d10; &c5 = c4 + d10; func f5() { return c5 }; f5()", "func g5() { d }; func f6() { g5() + 1 }; f6()",
+				"[1..64].randSize(4)", "[1..100].randSize(7)", "big = [1..40]; big.randSize(3) + big.randSize(2)", "[1..200].shuffle()[0:3]", "[1..64].rand() + [1..33].rand()", "func pick3() { return [1..48].randSize(3) }; pick3() + pick3()",
 				"`{d100} {3d6k2} {d20优势}`", "i=0; s=0; while i<5 { s = s + d6; i=i+1 }; s", "[d6,d6,d6].kh(2)", "(2d4)d(d6+1)", "d6 ? d8 : d10", "[1,2,3].shuffle().rand()",
 			})
 		case 1:
